@@ -303,6 +303,10 @@ func (env *Env) addr(x Expr) (loc string, t types.Type, ok bool) {
 		}
 		v := env.elab(x.X)
 		if pt, isp := v.T.Underlying().(*types.Pointer); isp {
+			if _, pp := pt.Elem().Underlying().(*types.Pointer); pp {
+				// (a captured variable of a closure is the address of its cell)
+				fail("field %s selected through a pointer to a pointer: write (*%s).%s", x.Name, exprString(x.X), x.Name)
+			}
 			i, st := fieldIndex(pt.Elem(), x.Name)
 			if i < 0 {
 				fail("no field %s in %s", x.Name, pt.Elem())
